@@ -136,3 +136,65 @@ fn noop_placeholder(_op: &Op, _ctx: &dyn Context, _operands: &mut dyn Coordinate
     // non-existing or non-implemented inverse operation
     0
 }
+
+// ----- V E R I F I C A T I O N   H O O K S -------------------------------------------
+
+/// Names and gamuts of all built-in operators, in table order
+#[cfg(feature = "verif")]
+pub(crate) fn verif_builtin_gamuts() -> Vec<(&'static str, Vec<OpParameter>)> {
+    BUILTIN_OPERATORS
+        .iter()
+        .map(|(name, _)| {
+            let gamut: Vec<OpParameter> = match *name {
+                "adapt" => adapt::GAMUT.to_vec(),
+                "addone" => addone::GAMUT.to_vec(),
+                "axisswap" => axisswap::GAMUT.to_vec(),
+                "btmerc" => btmerc::GAMUT.to_vec(),
+                "butm" => btmerc::UTM_GAMUT.to_vec(),
+                "cart" => cart::GAMUT.to_vec(),
+                "curvature" => curvature::GAMUT.to_vec(),
+                "deflection" => deflection::GAMUT.to_vec(),
+                "deformation" => deformation::GAMUT.to_vec(),
+                "dm" | "dms" => iso6709::GAMUT.to_vec(),
+                "geodesic" => geodesic::GAMUT.to_vec(),
+                "gravity" => gravity::GAMUT.to_vec(),
+                "gridshift" => gridshift::GAMUT.to_vec(),
+                "helmert" => helmert::GAMUT.to_vec(),
+                "laea" => laea::GAMUT.to_vec(),
+                "latitude" => latitude::GAMUT.to_vec(),
+                "lcc" => lcc::GAMUT.to_vec(),
+                "merc" => merc::GAMUT.to_vec(),
+                "webmerc" => webmerc::GAMUT.to_vec(),
+                "molodensky" => molodensky::GAMUT.to_vec(),
+                "omerc" => omerc::GAMUT.to_vec(),
+                "permtide" => permtide::GAMUT.to_vec(),
+                "somerc" => somerc::GAMUT.to_vec(),
+                "tmerc" => tmerc::GAMUT.to_vec(),
+                "unitconvert" => unitconvert::GAMUT.to_vec(),
+                "utm" => tmerc::UTM_GAMUT.to_vec(),
+                "pipeline" => pipeline::GAMUT.to_vec(),
+                "pop" | "push" => pushpop::PUSH_POP_GAMUT.to_vec(),
+                "stack" => stack::STACK_GAMUT.to_vec(),
+                "noop" | "longlat" | "latlon" | "latlong" | "lonlat" => noop::GAMUT.to_vec(),
+                // An operator added later without a row here is reported with an empty gamut
+                _ => Vec::new(),
+            };
+            (*name, gamut)
+        })
+        .collect()
+}
+
+/// The unit tables of `unitconvert`: (linear, angular), each entry (name, multiplier)
+#[cfg(feature = "verif")]
+#[allow(clippy::type_complexity)]
+pub(crate) fn verif_unit_tables() -> (Vec<(&'static str, f64)>, Vec<(&'static str, f64)>) {
+    let linear = units::LINEAR_UNITS
+        .iter()
+        .map(|u| (u.name(), u.multiplier()))
+        .collect();
+    let angular = units::ANGULAR_UNITS
+        .iter()
+        .map(|u| (u.name(), u.multiplier()))
+        .collect();
+    (linear, angular)
+}
